@@ -1,7 +1,9 @@
 package props
 
 import (
+	"bufio"
 	"bytes"
+	"io"
 
 	"pgregory.net/rapid"
 
@@ -151,4 +153,27 @@ func appendJunk(b []byte) {
 		return
 	}
 	_ = append(b, 0x5A, 0xA5, 0x5A, 0xA5, 0x5A, 0xA5, 0x5A, 0xA5, 0x5A, 0xA5, 0x5A, 0xA5, 0x5A, 0xA5, 0x5A, 0xA5)
+}
+
+// streamReader: kind 0 is a bytes.Reader over the stream; kinds 1..4 are bufio.Readers (16, 188, 256, 4096 bytes) over the
+// stream followed by 30 more packets of another PID, so that a caller who reads on makes the buffer refill.
+func streamReader(kind int, stream, other []byte) io.Reader {
+	if kind == 0 {
+		return bytes.NewReader(stream)
+	}
+	long := clone(stream)
+	for i := 0; i < 30 && len(other) == 188; i++ {
+		long = append(long, other...)
+	}
+	return bufio.NewReaderSize(bytes.NewReader(long), []int{16, 188, 256, 4096}[(kind-1)%4])
+}
+
+// readOn reads the rest of r in small pieces (through the buffer of a bufio.Reader, never around it).
+func readOn(r io.Reader) {
+	p := make([]byte, 7)
+	for {
+		if _, err := r.Read(p); err != nil {
+			return
+		}
+	}
 }
